@@ -328,6 +328,10 @@ class Verifier:
                     g = spec_eval(eng, st, fi, cl.expr, {**inv.lets, **lets}, old=old, result=result)
                     self._ob(rep, c, "class-invariant", cl, st, g, pno)
             self._frame_obligations(eng, rep, c, old, st, pno)
+            if c.logs_only is not None:
+                names = c.logs_only + [nm for nm, _ in c.logs] + list(getattr(c, "logs_result", []))
+                fake = Clause(None, tag="frame-event-names", top=False, src=f"only entries named {names} are added to the log")
+                self._ob(rep, c, "frame", fake, st, _only_names(old.ev_set, st.ev_set, names), pno)
         elif o.kind == "raise":
             exc: SExc = st.exc
             allowed = []
@@ -440,6 +444,12 @@ class Verifier:
             smt.discharge(ob, tmo)
 
 
+def _only_names(before, after, names):
+    e = sym.fresh_val("le")
+    nm = Val.sval(sym.VL.hd(Val.targs(e)))
+    return sym.forall_pat([e], z3.Implies(z3.Select(after, e), z3.Or(z3.Select(before, e), *[nm == z3.StringVal(n) for n in names])), z3.Select(after, e))
+
+
 def _keep_axioms(st: State, scratch: State):
     """a frame expression is evaluated (in spec mode) on a scratch copy; the facts that evaluation put on the scratch path are typing /
     closure axioms about the initial heap (e.g. the closure axiom of a field first touched there) - they hold on the real path too and
@@ -531,7 +541,10 @@ def _apply_contract(eng: Engine, st: State, fv: SFunc, c: Contract, args, kwargs
         na = sym.fresh_const("events", sym.SeqArrS)
         st.assume(z3.ForAll([k], z3.Implies(z3.And(k >= 0, k < st.ev_len), z3.Select(na, k) == z3.Select(st.ev_arr, k))))
         st.ev_len, st.ev_arr = n, na
+        before_set = st.ev_set
         st.havoc_ev_set()
+        if c.logs_only is not None:
+            st.assume(_only_names(before_set, st.ev_set, c.logs_only))  # the callee adds entries of these names only (checked when the callee is verified)
     for name, arg_exprs in c.logs:
         vals = []
         saved = eng.pure
@@ -580,6 +593,8 @@ def _apply_contract(eng: Engine, st: State, fv: SFunc, c: Contract, args, kwargs
     if inv is not None and "self" in vals and not c.opts.get("no_class_invariant_post", False):
         for icl in inv.clauses:
             st.assume(spec_eval(eng, st, fi, icl.expr, {**inv.lets, **c.lets}, old=pre, result=result))
+    for name in getattr(c, "logs_result", []):
+        st.log_event(name, [result])  # ghost marker: "this call returned <result>" (call-site bookkeeping; the callee is not asked to log it)
     st.frames.pop()
     if st.feasible():
         out.append((st, result))
